@@ -26,6 +26,8 @@ from c18_util import *
 from c18w_util import DIRECTED_SHAPES, random_shape, zero_module
 from c18w_util import shape_module as frame_shape_module
 import c18w_layer
+import c18v_layer
+from c18v_util import big_module
 
 EXTRA = os.path.join(HARNESS, "moddrv_c18.inc")
 
@@ -1065,6 +1067,18 @@ def main(tier):
             return run.finish("proof", (nthm, ndis))
         built.append((mods, probes))
     nmods = 0
+    # ---- round 5: rows whose own encoding straddles the X.691 11.9 fragmentation boundaries (own driver commands: own build)
+    bigmods = [dict(big_module("MV%d" % i), fs=fs, opts=" ".join(o)) for i, (fs, o, _) in enumerate(FLAGSETS[tier][:1 if tier == "quick" else 2])]
+    for bm, (fs, o, _) in zip(bigmods, FLAGSETS[tier]):
+        try:
+            build_modules([bm], tag="c18v_" + fs, opts=o, moddrv_extra=c18v_layer.EXTRA_V)
+        except BuildError as e:
+            run.violation("build", {"what": str(e)[-2500:], "options": bm["opts"]}, no_input=True)
+            continue
+        nmods += 1
+        run.count("modules_%s_bigrow" % fs)
+        c18v_layer.check_big(run, Rng(run.seed * 7919 + 18005 + len(fs)), model, bm, tier, mrun)
+        c18v_layer.check_big_oer(run, Rng(run.seed * 7919 + 18105 + len(fs)), bm, tier)
     for mods, probes in built:
         for p in probes:
             run.case("%s build %s" % (p["fs"], p["name"]))
@@ -1149,7 +1163,8 @@ def main(tier):
           "extraction: ExtrOcamlBasic only, per-area files; OCaml 4.13.1; zarith for I/O",
           "lib/c18_util.py (module generator; effective tags of the frame members and the object-set structure given to the model; reader of the generated asn_IOS_* tables), lib/modgen.py",
           "harness/moddrv.c + harness/moddrv_c18.inc (`sel` reaches the generated selector through the member table), lib/modbuild.py; gcc + ASan/UBSan/LSan",
-          "XER is not modelled: XER round trips and mismatches are evaluated on the C alone"]
+          "XER is not modelled: XER round trips and mismatches are evaluated on the C alone",
+          "lib/c18v_util.py (Python's own X.691 11.9 fragmentation: expected UPER of frames with big rows), harness/moddrv_c18v.inc (value builder from a short program, crc32)"]
     return run.finish("proof", (nthm, ndis), trusted_base=tb,
                       checker_cmd="make -C /verif all && coqc -Q coq A1 coq/Props/Properties_C18.v",
                       extra_cov={"theorems": names, "modules": nmods, "option_sets": [" ".join(o) or "(none)" for _, o, _ in FLAGSETS[tier]],
